@@ -83,7 +83,7 @@ UnaryNext ==
     \/ (Cfg.alpha = "all" /\ Sqrt(1, FALSE, Zero))
     \/ Bin("add", 1, 1) \/ Bin("sub", 1, 1) \/ Bin("mul", 1, 1)
     \/ BatchInv(<<1>>, 0)
-    \/ (K = 0 /\ IntoBigInt(1))
+    \/ (K = 0 /\ IntoBigInt(1)) \/ (K = 0 /\ ToStr(1))
 
 \* tower-specific operations: every element x norm / conjugate / multiplication by every subfield sample / every sparse
 \* multiplication with coefficient samples; every element of the cyclotomic subgroup x fast square / inverse / exponentiation
@@ -105,6 +105,7 @@ ConvNext ==
           FitsInt(IntTypes[i], neg, mag) /\ FromInt(1, IntTypes[i].ty, neg, mag)
     \/ (K = 0 /\ \E be \in BOOLEAN, bs \in ByteStrs(2) : FromBytesMod(1, be, bs))
     \/ (K = 0 /\ \E v \in 0..(2 * F.p + 2) : FromBigInt(1, v))
+    \/ (K = 0 /\ \E neg \in BOOLEAN, mag \in SmallMags \cup {10, 99, 100, 65535, 65536, 1000000, 999999999} : FromStr(1, neg, mag))
 
 \* every operand tuple of the alphabet is an initial state; successors are not explored further
 \* (for the complete alphabets they are initial states anyway)
